@@ -234,6 +234,18 @@ def run(chk):
         eq('R07.2', f'legacy {fname}(omega, 1/mu, eta, ...) == J_published ({model})', J, JREF[model], ml.where(f), key=f'R07.2|{fname}')
         eq('R07.2', f'legacy {fname} * models.{model} == 1', J * main[model], X.ONE, ml.where(f))
         guard_reach(chk, fname, J, JREF[model], ml.where(f))
+    # the frequency-dependent-zeta variants: andrade_freq / sundberg_freq are the base law with zeta replaced by zeta * exp(E), E = -falloff (|omega / omega_c| - 1) clipped to
+    # [0, 100] (the documented behaviour: below the critical frequency the Andrade element fades towards Maxwell, at and above it the law is the plain one)
+    wc = X.atom('critical_freq', 'pos'); fo = X.atom('critical_freq_falloff', 'pos')
+    xexp = -fo * (X.fn('abs', w / wc) - 1)
+    Eref = X.cmp('>=', xexp, X.const(100)) * 100 + X.cmp('>', xexp, X.ZERO) * X.cmp('<', xexp, X.const(100)) * xexp
+    for fname, base, extra in (('andrade_freq', 'andrade', ()), ('sundberg_freq', 'sundberg', (1 / cm, ce))):
+        ffq = ml.defs.get(fname); fbase = ml.defs.get(base)
+        if not isinstance(ffq, ast.FunctionDef) or not isinstance(fbase, ast.FunctionDef):
+            continue
+        Jf = it2.call(ml, ffq, [w, comp, eta] + list(extra) + [al, ze, wc, fo])
+        Jb = it2.call(ml, fbase, [w, comp, eta] + list(extra) + [al, ze * X.fn('exp', Eref)])
+        eq('R07.2', f'legacy {fname} == legacy {base} with zeta * exp(clip(-falloff (|omega/omega_c| - 1), 0, 100))', Jf, Jb, ml.where(ffq), key=f'R07.2|{fname}')
     # the compiled models switch to their extreme-value returns below MIN_FREQUENCY / above MAX_FREQUENCY / below MIN_MODULUS: those thresholds must lie outside the stated range
     mc = repo.by_path('TidalPy/utilities/constants_x.pyx')
     itc = Interp(repo)
